@@ -198,6 +198,15 @@ def run(rep, ctx):
     with rep.guard("R07.7"):
         from . import c05 as _c05b
         _c05b.r05_6(rep, M, "R07.7")
+    rep.rule("R07.8", "spglib is given the analysed structure unmodified with the analyzer's tolerance, and its standardised lattice / positions / types are used without a change of convention (shared with C05)")
+    with rep.guard("R07.8"):
+        from . import shared as _shb
+        _shb.spglib_boundary(rep, ctx.model, "R07.8")
+    rep.floor("R07.8", 7)
+    rep.rule("R07.9", "every tabulated normalizer is an automorphism of its group and an isometry of the lattice (the normalised cell is the same crystal in the same space group; shared with C05/C14)")
+    from . import shared as _shn
+    _shn.normalizer_tables(rep, ctx.tables, "R07.9", perm=False)
+    rep.floor("R07.9", 2400)
     rep.floor("R07.1", 6000)
     rep.floor("R07.2", 4)
     rep.floor("R07.3", 7)
